@@ -763,6 +763,10 @@ fn concurrent_history(arena: &Arena, rng: &mut Rng, rep: &mut Report, hb: &Heart
             }
         }
     }
+    if !cont {
+        // a call failed in the OS half-way: the states of its range are not determined
+        return false;
+    }
     // quiescent: covered chunks Mapped, uncovered ones still in their pre-state, neighbours untouched
     for c in 0..REG {
         let st = mm.verif_get_state(addr(arena.addr(base + c)));
